@@ -26,9 +26,9 @@ import (
 )
 
 type secretStats struct {
-	Ops, Scenarios, Secrets, Haystacks, Searches, DealPairs, WrongPasswords, RoundPairs, NoncesSeen, SealedValues int
-	OutcomeHist                                                                                                   map[string]int
-	Monitors, Notes, Samples                                                                                      []string
+	Ops, Scenarios, Secrets, Haystacks, Searches, DealPairs, WrongPasswords, RoundPairs, NoncesSeen, SealedValues, RotatedRounds int
+	OutcomeHist                                                                                                                  map[string]int
+	Monitors, Notes, Samples                                                                                                     []string
 }
 
 type secretRun struct {
@@ -169,6 +169,37 @@ func (r *secretRun) scenario(outDir string, n, t int) {
 			}
 		}
 	}
+	// a fourth round after the last participant replaced its machine (another mnemonic, hence another long-term key) while
+	// the other machines kept running: what they deal to that participant now must be sealed for its NEW key
+	rot := c.nodes[n-1]
+	retiredKey := rot.air.VerifSecKey()
+	round4 := ""
+	rot.air.VerifCloseDB()
+	if fresh, err := airgapped.NewMachine(filepath.Join(rot.dir, "airgapped-rotated")); err == nil {
+		fresh.SetEncryptionKey([]byte("right-password"))
+		if err := fresh.SetBaseSeed(testMnemonics[(rot.idx+len(testMnemonics)/2)%len(testMnemonics)]); err != nil {
+			r.mon("harness: rotated machine: " + err.Error())
+			return
+		}
+		if err := fresh.InitKeys(); err != nil {
+			r.mon("harness: rotated machine: " + err.Error())
+			return
+		}
+		fresh.SetResultFolder(filepath.Join(rot.dir, "results"))
+		rot.air = fresh
+		round4, _ = c.startDKG(t)
+		c.pump(60)
+		r.st.RotatedRounds++
+		for i, nd := range c.nodes {
+			if st := c.roundState(nd, round4); st != "stage_signing_idle" {
+				r.mon(fmt.Sprintf("C04 deal_only_for_addressee: %s round %.8s after participant %s replaced its machine: node %d ended in %s (what was dealt to the new machine did not open with its key)", tag, round4, rot.name, i, st))
+				break
+			}
+		}
+	} else {
+		r.mon("harness: rotated machine: " + err.Error())
+		return
+	}
 	c.proposeData(c.nodes[0], round1, map[string][]byte{"m": []byte("message")})
 	c.pump(20)
 	c.proposeRange(c.nodes[n-1], round2, 7, 9)
@@ -195,6 +226,7 @@ func (r *secretRun) scenario(outDir string, n, t int) {
 			}
 		}
 	}
+	secrets = append(secrets, secret{fmt.Sprintf("the retired long-term private key of machine %d", rot.idx), scalarBytes(retiredKey)})
 	r.st.Secrets += len(secrets)
 	// (a) nothing that leaves a machine contains a secret
 	for k, rb := range results {
@@ -217,7 +249,17 @@ func (r *secretRun) scenario(outDir string, n, t int) {
 		}
 		for i, nd := range c.nodes {
 			r.st.DealPairs++
-			pt, err := ecies.Decrypt(suite, nd.air.VerifSecKey(), req.Deal, suite.Hash)
+			key := nd.air.VerifSecKey()
+			if nd == rot && m.DkgRoundID != round4 {
+				key = retiredKey // the rounds before the replacement were dealt to the machine it had then
+			}
+			if nd == rot && m.DkgRoundID == round4 {
+				// … and the retired key opens nothing that was dealt afterwards
+				if pt, err := ecies.Decrypt(suite, retiredKey, req.Deal, suite.Hash); err == nil && len(pt) > 0 {
+					r.mon(fmt.Sprintf("C04 deal_only_for_addressee: %s the deal at offset %d for %s (round %.8s, dealt after %s replaced its machine) opens with the RETIRED key of that participant", tag, m.Offset, m.RecipientAddr, m.DkgRoundID, rot.name))
+				}
+			}
+			pt, err := ecies.Decrypt(suite, key, req.Deal, suite.Hash)
 			opened := err == nil && len(pt) > 0
 			if nd.name == m.RecipientAddr {
 				if !opened {
@@ -315,6 +357,7 @@ func (r *secretRun) scenario(outDir string, n, t int) {
 	for i, nd := range c.nodes {
 		dbDirs[i] = filepath.Join(nd.dir, "airgapped")
 	}
+	dbDirs = append(dbDirs, filepath.Join(rot.dir, "airgapped-rotated"))
 	// (c0) what is sealed under the password (the long-term key pair, one keyring per round) is sealed with AES-GCM under ONE
 	// key per machine (one salt, one password): every stored value must have its own nonce (its first 12 bytes), otherwise
 	// two values share a keystream and a known plaintext (the public key, a broadcast public polynomial) opens the others
